@@ -28,6 +28,10 @@ pub fn run_levels(levels: usize, cfg: &RunCfg) -> RunStats {
     with_levels!(levels, run, cfg)
 }
 
+pub fn replay_levels(levels: usize, cfg: &RunCfg) -> Vec<(usize, crate::seqx::Fail)> {
+    with_levels!(levels, replay_history, cfg)
+}
+
 fn gate_levels(levels: usize, p: &Profile, steps: &[Step]) -> Result<(), String> {
     with_levels!(levels, determinism_gate, p, steps)
 }
@@ -839,6 +843,18 @@ pub fn c05_book(out: &mut Outcome, t: bool) {
         hp.modify_vols = vec![];
         plans.push(plan(&format!("{}: + re-pricing modifies", name), hp, 3, if t { 5 } else { 4 }));
     }
+    // ties at the very end of the clock axis: the clock cannot move any further, so every
+    // insertion after it got there is a tie (queue keys cannot simply be "the clock plus one")
+    let mut ce = core.clone();
+    ce.name = "ties-at-clock-end".into();
+    ce.start_time = u64::MAX - 1;
+    ce.prices = vec![10, 11];
+    ce.limit_vols = vec![1, 2];
+    ce.market_vols = vec![3];
+    ce.modify = true;
+    ce.modify_prices = true;
+    ce.modify_vols = vec![];
+    plans.push(plan("clock starting at 2^64-2: ties at the largest representable time", ce, 3, if t { 5 } else { 4 }));
     execute(
         out,
         plans,
